@@ -18,7 +18,7 @@ RULE = ('values: text over ASCII / Latin-1 / BMP / astral planes with CR, LF, NU
         'http.client.responses for the blacklist. Non-trivial = the value contains a control character or a non-ASCII character or is '
         'not a str; distinct = distinct (entry point, class, repr(value)).')
 PYOPT = {'quick': 1, 'thorough': 1}     # one unit of every kind is also served by an interpreter started with -O (assert statements compiled out)
-REQUIRED = ['units_run_under_python_-O', 'length_sweep_cases', 'header_lists_compared_with_model', 'header_reads_compared', 'multi_valued_blacklist_checked', 'third_or_later_value_of_a_header', 'ctl_rejected', 'clean_accepted_and_roundtripped', 'non_ascii_roundtripped', 'multi_value_order_checked', 'blacklist_204',
+REQUIRED = ['units_run_under_python_-O', 'values_that_cannot_be_utf8_encoded', 'unencodable_value_refused', 'length_sweep_cases', 'header_lists_compared_with_model', 'header_reads_compared', 'multi_valued_blacklist_checked', 'third_or_later_value_of_a_header', 'ctl_rejected', 'clean_accepted_and_roundtripped', 'non_ascii_roundtripped', 'multi_value_order_checked', 'blacklist_204',
             'blacklist_304', 'statuses_checked', 'wsgi_emissions', 'entry_setitem', 'entry_append', 'entry_setdefault', 'entry_attr',
             'entry_ctor_dict', 'entry_ctor_pairs', 'entry_ctor_iterable', 'response_inspected_after_a_rejection', 'entry_more_headers', 'entry_httperror_options', 'non_str_types']
 ASSUMPTIONS = ['header names are ASCII tokens (the statement speaks of values)',
@@ -578,6 +578,69 @@ def ops_unit(ctx, unit):
             ctx.sample({'operation_history': hist[:8], 'model': {k: v[:3] for k, v in model.items()}})
 
 
+def surrogate_unit(ctx, unit):
+    """Values that cannot be encoded as UTF-8 at all (lone surrogates, e.g. what os.fsdecode() makes of a Latin-1 file name): refusing them -
+    at the setter or when the header list is built - is fine; a header list that does come out must be wire-safe and keep to the status blacklist."""
+    from ombott.response import Response, HTTPResponse
+    import ombott
+    vals = ['\udce9', 'caf\udce9.txt', 'a\ud800b', '\udcff' * 3, 'attachment; filename="r\udce9sum\udce9.pdf"']
+    app = ombott.Ombott()
+    cur = {}
+
+    @app.route('/u')
+    def h():
+        app.response.status = cur['status']
+        app.response.headers['Content-Length'] = '0'
+        app.response.headers['Last-Modified'] = 'Thu, 01 Jan 2015 00:00:00 GMT'
+        app.response.headers['Content-Disposition'] = cur['v']
+        return ''
+    for v in vals:
+        for status in (200, 201, 204, 304, 404):
+            for entry in ('setitem', 'append', 'ctor', 'wsgi'):
+                ctx.case(('surrogate', v, status, entry), nontrivial=True)
+                ctx.count('values_that_cannot_be_utf8_encoded')
+                wit = {'unit': {'kind': 'note', 'value': repr(v), 'status': status, 'entry': entry}}
+                where = f'unencodable value {v!r} through {entry} on a {status} response'
+                forbidden = {204: {'Content-Type'}, 304: set(ENTITY)}.get(status, set())
+                if entry == 'wsgi':
+                    cur.update(v=v, status=status)
+                    r = call_app(app, make_environ('GET', '/u'))
+                    if r.escaped is not None or r.sr_calls != 1:
+                        ctx.violation('wsgi-emission-broken', f'{where}: {r.escaped!r}', wit)
+                        continue
+                    hl = r.headers
+                    if r.code >= 500:
+                        ctx.count('unencodable_value_refused')
+                        forbidden = set()
+                else:
+                    try:
+                        if entry == 'ctor':
+                            resp = HTTPResponse('', status, {'Content-Disposition': v, 'Content-Length': '0', 'Last-Modified': 'x'})
+                        else:
+                            resp = Response()
+                            resp.status = status
+                            resp.headers['Content-Length'] = '0'
+                            resp.headers['Last-Modified'] = 'x'
+                            if entry == 'setitem':
+                                resp.headers['Content-Disposition'] = v
+                            else:
+                                resp.headers.append('Content-Disposition', v)
+                        hl = resp.headerlist
+                    except (UnicodeError, ValueError, TypeError):
+                        ctx.count('unencodable_value_refused')
+                        continue
+                for k, val in hl:
+                    try:
+                        val.encode('latin1').decode('utf8')
+                    except UnicodeError:
+                        ctx.violation('emitted-value-does-not-decode-back-as-utf8', f'{where}: {k}: {val!r}', wit)
+                        break
+                leaked = [k for k, _ in hl if k in forbidden]
+                if leaked:
+                    ctx.violation(f'forbidden-entity-header-emitted-on-{status}', f'{where}: {leaked}', wit)
+    ctx.sample({'unencodable_values': [repr(v) for v in vals]})
+
+
 def length_unit(ctx, unit):
     """Every value length 1..N (and lengths around powers of two) x control character x position x setter: the guard does not depend on
     how long the value is.  Clean values of the same lengths must be emitted unchanged."""
@@ -626,9 +689,9 @@ def length_unit(ctx, unit):
 def plan(tier, seed):
     if tier == 'quick':
         return ([{'kind': 'setter', 'n': 4000, 'sub': i} for i in range(4)] + [{'kind': 'multi', 'n': 1500}, {'kind': 'status'},
-                {'kind': 'wsgi', 'n': 3000}, {'kind': 'length', 'upto': 300}, {'kind': 'ops', 'n': 1500}])
+                {'kind': 'wsgi', 'n': 3000}, {'kind': 'length', 'upto': 300}, {'kind': 'ops', 'n': 1500}, {'kind': 'surrogate'}])
     return ([{'kind': 'setter', 'n': 50000, 'sub': i} for i in range(16)] + [{'kind': 'multi', 'n': 20000, 'sub': i} for i in range(4)]
-            + [{'kind': 'status'}] + [{'kind': 'wsgi', 'n': 25000, 'sub': i} for i in range(8)] + [{'kind': 'length', 'upto': 2100}] + [{'kind': 'ops', 'n': 20000, 'sub': i} for i in range(4)])
+            + [{'kind': 'status'}] + [{'kind': 'wsgi', 'n': 25000, 'sub': i} for i in range(8)] + [{'kind': 'length', 'upto': 2100}] + [{'kind': 'ops', 'n': 20000, 'sub': i} for i in range(4)] + [{'kind': 'surrogate'}])
 
 
 def run_unit(ctx, unit):
@@ -645,5 +708,7 @@ def run_unit(ctx, unit):
         length_unit(ctx, unit)
     elif k == 'ops':
         ops_unit(ctx, unit)
+    elif k == 'surrogate':
+        surrogate_unit(ctx, unit)
     elif k == 'note':
         print('  witness (re-run the tier to re-evaluate):', unit)
